@@ -468,6 +468,12 @@ func (f *Composite) packByBitmap() ([]byte, error) {
 		// set bitmap bit for this field
 		f.bitmap().Set(idInt)
 
+		// the composite bitmap does not auto expand and ignores bits it has no
+		// room for
+		if !f.bitmap().IsSet(idInt) {
+			return nil, fmt.Errorf("failed to pack subfield %s: bitmap of %d bits can not represent it", id, f.bitmap().Len())
+		}
+
 		field, ok := f.subfields[id]
 		if !ok {
 			return nil, fmt.Errorf("failed to pack subfield %s: no specification found", id)
